@@ -921,7 +921,7 @@ func (d *Driver) Burst(n int) {
 	d.Cl.S.SetAuto(false)
 	for i := 0; i < n && len(d.Blobs) > 0; i++ {
 		b := d.Blobs[d.R.Intn(len(d.Blobs))]
-		if d.Wide && d.R.Chance(1, 8) {
+		if d.Wide && d.R.Chance(1, 4) {
 			// the cache is soft state: a client may lose a blob's entries at any time (eviction, restart)
 			blb.VerifInvalidate(d.Cl.Cli[d.R.Intn(len(d.Clients))], b.ID)
 			vw.Stat("wide.cache_dropped", 1)
